@@ -1,6 +1,7 @@
 package main
 
 import (
+	"math"
 	"math/rand"
 
 	"github.com/ctessum/geom"
@@ -27,7 +28,12 @@ func decPolys(v interface{}, dec coordDec) geom.Polygonal {
 }
 
 func runC02(c map[string]interface{}) []Event {
-	half := func(v interface{}) float64 { return float64(num(v)) / 2 }
+	// "sh": polygon and query points times 2^sh (exact): the classification of a point does not depend on the unit
+	sh := 0
+	if v, ok := c["sh"]; ok {
+		sh = num(v)
+	}
+	half := func(v interface{}) float64 { return math.Ldexp(float64(num(v)), sh-1) }
 	switch str(c["kind"]) {
 	case "poly":
 		pg := decPolys(c["polys"], half)
@@ -38,7 +44,7 @@ func runC02(c map[string]interface{}) []Event {
 			for x := 0; x <= n; x++ {
 				for y := 0; y <= n; y++ {
 					pts = append(pts, []interface{}{x, y})
-					res = append(res, int(geom.Point{X: float64(x) / 2, Y: float64(y) / 2}.Within(pg)))
+					res = append(res, int(geom.Point{X: half(x), Y: half(y)}.Within(pg)))
 				}
 			}
 		})
@@ -48,7 +54,7 @@ func runC02(c map[string]interface{}) []Event {
 			i := 0
 			for x := 0; x <= n; x++ {
 				for y := 0; y <= n; y++ {
-					if int(geom.Point{X: float64(x) / 2, Y: float64(y) / 2}.Within(geom.MultiPolygon{p})) != res[i].(int) {
+					if int(geom.Point{X: half(x), Y: half(y)}.Within(geom.MultiPolygon{p})) != res[i].(int) {
 						e["out"] = "multipolygon wrapper disagrees"
 					}
 					i++
